@@ -125,7 +125,7 @@ var c16Alphabet = []hostCall{
 	{"sub", []int64{1, 0}}, {"sub", []int64{0, 1}}, {"inc", nil}, {"get", nil}, {"early", []int64{0}}, {"early", []int64{2}},
 	{"boom", nil}, {"viacallee", nil}, {"deep", []int64{3}}, {"obj", nil}, {"caught", nil}, {"launch", nil}, {"getdone", nil},
 	{"firstover", []int64{15}}, {"firstover", []int64{5}}, {"grow", nil}, {"fresh", []int64{1}}, {"fresh", []int64{2}}, {"skipodd", []int64{1}}, {"skipodd", []int64{3}}, {"start2", []int64{7, 2}}, {"diff", nil},
-	{"pending", []int64{9}}, {"pending", []int64{2}}, {"argret", []int64{-4}},
+	{"pending", []int64{9}}, {"pending", []int64{2}}, {"argret", []int64{-4}}, {"items", nil},
 }
 
 var sp = herrors.Span{}
@@ -140,6 +140,8 @@ func c16Signature(fn string) runtime.FunctionInvocationSignature {
 		return runtime.FunctionInvocationSignature{Params: []runtime.FunctionInvocationSignatureParam{param("a"), param("b")}, ReturnType: intT}
 	case "early", "deep", "firstover", "fresh", "skipodd", "pending", "argret":
 		return runtime.FunctionInvocationSignature{Params: []runtime.FunctionInvocationSignatureParam{param("n")}, ReturnType: intT}
+	case "items":
+		return runtime.FunctionInvocationSignature{ReturnType: ast.NewListType(intT, sp)}
 	case "obj":
 		return runtime.FunctionInvocationSignature{ReturnType: ast.NewObjectType([]ast.ObjectTypeField{
 			ast.NewObjectTypeField(pAst.NewSpannedIdent("a", sp), intT, sp),
@@ -212,6 +214,12 @@ func c16Body(hist []hostCall, inspect bool) func(h *hostEnv, prog compiler.Compi
 		// a host may keep one argument slice per call site and reuse it for repeated calls: the VM
 		// must neither reorder nor convert the host's slice in place
 		hostArgs := map[string][]value.Value{}
+		// what a call has returned is the host's: a later call does not change it
+		type heldResult struct {
+			call, shown string
+			v           value.Value
+		}
+		var held []heldResult
 		for _, c := range hist {
 			args, reused := hostArgs[c.String()]
 			if !reused {
@@ -243,6 +251,15 @@ func c16Body(hist []hostCall, inspect bool) func(h *hostEnv, prog compiler.Compi
 				d := "<nil>"
 				if res.ReturnValue != nil {
 					d = showValue(res.ReturnValue)
+				}
+				for _, hr := range held {
+					if now := showValue(hr.v); now != hr.shown {
+						h.log("residue after %s: result-of-an-earlier-call-changed (%s returned %s, the host now holds %s)", c.String(), hr.call, hr.shown, now)
+						break
+					}
+				}
+				if res.ReturnValue != nil {
+					held = append(held, heldResult{c.String(), d, res.ReturnValue})
 				}
 				h.log("%s=%s", c.String(), d)
 				if inspect {
